@@ -311,7 +311,14 @@ Theorem axis_parts_disjoint :
     nth i (offsets_from start es) 0 + nth i es 0 <= nth j (offsets_from start es) 0.
 Proof. exact slices_disjoint_lemma. Qed.
 
+(* Vela's closed form of the total SAME padding equals the reference's, for every extent, stride and kernel *)
+Theorem needed_total_padding_is_reference :
+  forall input stride kernel, 0 < stride -> 0 <= input ->
+    needed_total_padding input stride kernel = tflite_total_padding input stride kernel.
+Proof. exact needed_total_padding_is_reference_lemma. Qed.
+
 Print Assumptions space_to_batch_conv_batch_to_space_is_dilation.
+Print Assumptions needed_total_padding_is_reference.
 Print Assumptions axis_parts_cover.
 Print Assumptions axis_parts_disjoint.
 Print Assumptions prelu_as_maximum.
